@@ -37,6 +37,7 @@ const POOL: &[PoolVal] = &[
     PoolVal { src: "3", big: false },
     PoolVal { src: "(2^64)", big: true },
     PoolVal { src: "(0-2^63)", big: true },
+    PoolVal { src: "(0-9223372036854775807-1)", big: true },
     PoolVal { src: "(1/2)", big: false },
     PoolVal { src: "1.5", big: false },
     PoolVal { src: "(0.0/0.0)", big: false },
@@ -64,7 +65,7 @@ const POOL: &[PoolVal] = &[
     PoolVal { src: "+", big: false },
     PoolVal { src: "len", big: false },
 ];
-const QUICK_POOL: &[usize] = &[0, 1, 2, 3, 5, 7, 8, 9, 12, 13, 15, 16, 17, 18, 19, 21, 22, 24, 26, 27, 28, 29, 31];
+const QUICK_POOL: &[usize] = &[0, 1, 2, 3, 5, 7, 8, 9, 10, 13, 14, 16, 17, 18, 19, 20, 22, 23, 25, 27, 28, 29, 30, 32];
 
 #[derive(Clone)]
 struct Case {
@@ -349,6 +350,90 @@ fn main() {
         }
     }
     rep.notes.push(format!("try/catch containment programs: {}", contained));
+
+    // ------------------------------------------------------------------ 2b. statement sweep: the mutation,
+    // destructuring and indexing STATEMENTS of the language on every pool value (builtins are only half of
+    // "whatever a program does with the pure part of the language")
+    let templates: &[&str] = &[
+        "x := A; x[B] = C; x",
+        "x := A; x[B] += C; x",
+        "x := A; x[B] $= C; x",
+        "x := A; x[B] append= C; x",
+        "x := A; x[B][C] = 1; x",
+        "x := A; pop x[B]; x",
+        "x := A; remove x[B]; x",
+        "x := A; remove x[B:C]; x",
+        "x := A; every x[B:C] = 0; x",
+        "x := A; every x[B:] += C; x",
+        "x := A; x{B = C}",
+        "x := A; consume x[B]; x",
+        "A[B]",
+        "A[B:C]",
+        "A[B:]",
+        "A[:C]",
+        "a, b := A; [a, b]",
+        "a, ...b := A; [a, b]",
+        "a, ...b, c := A; [a, b, c]",
+        "a, b = 1 := A",
+        "switch (A) case B -> 1 case _ -> 2",
+        "switch (A) case [x, B] -> x case _ -> 2",
+        "switch (A) case x + B -> x case _ -> 2",
+        "switch (A) case x .+ y -> [x, y] case xs +. y -> [xs, y] case _ -> 2",
+        "(for (p <- A) yield p)",
+        "(for (p, q <<- A) yield [p, q])",
+        "(for (p <- A) yield p: B)",
+        "x: B = A; x",
+        "x := A; swap x, x[B]; x",
+        "A B C",
+        "F\"{A #B}\"",
+        "f := \\a, ...b, c = B -> [a, b, c]; f(...A)",
+        "x := A; x::precedence = B; x",
+        "struct Pt(px, py = B); p := Pt(A); p[px] = C; p",
+    ];
+    let spool: Vec<usize> = if args.tier == "thorough" { (0..POOL.len()).collect() } else { QUICK_POOL.to_vec() };
+    let mut nstmt = 0u64;
+    let mut srng = Rng::new(args.seed ^ 0x57A7);
+    for t in templates {
+        let three = t.contains('C');
+        for &a in &spool {
+            for &b in &spool {
+                let cs: Vec<usize> = if three {
+                    (0..(if args.tier == "thorough" { 8 } else { 3 })).map(|_| *srng.pick(&spool)).collect()
+                } else {
+                    vec![0]
+                };
+                for c in cs {
+                    // word-boundary replacement of the placeholders A, B, C
+                    let mut src = String::new();
+                    for tok in t.split_inclusive(|ch: char| !ch.is_alphanumeric() && ch != '_') {
+                        let (word, rest) = match tok.char_indices().last() {
+                            Some((i, ch)) if !ch.is_alphanumeric() && ch != '_' => (&tok[..i], &tok[i..]),
+                            _ => (tok, ""),
+                        };
+                        src.push_str(match word {
+                            "A" => POOL[a].src,
+                            "B" => POOL[b].src,
+                            "C" => POOL[c].src,
+                            w => w,
+                        });
+                        src.push_str(rest);
+                    }
+                    let it4 = Interp::new();
+                    noulith::verif_set_fuel(300_000);
+                    let out = it4.eval(&src);
+                    noulith::verif_set_fuel(u64::MAX);
+                    nstmt += 1;
+                    rep.case(&src, true);
+                    rep.arm("statement-sweep");
+                    if let Outcome::Panic(m) = &out {
+                        let key = format!("panic:stmt:{}", t.split(';').last().unwrap_or(t).trim().chars().take(24).collect::<String>().replace(' ', "_"));
+                        rep.judge(&key, &src, &format!("panic: {}", m), "ok-or-throw", "ok-or-throw");
+                    }
+                }
+            }
+        }
+    }
+    rep.notes.push(format!("statement-sweep programs: {}", nstmt));
 
     // ------------------------------------------------------------------ 3. fault-injected generated programs
     let nprog = if args.tier == "thorough" { 6000 } else { 500 };
